@@ -174,3 +174,12 @@ Proof.
           (conj (G_buildLogoutRequest_is_model s cfg now incl n si id) (G_buildLogoutResponse_is_model s cfg now sc rq incl id))).
 Qed.
 Print Assumptions C13_source_builders_sign_the_model_element.
+
+(* "... and publishes in its metadata": Metadata() / MetadataWithSLO() as translated from /repo on this run are the model
+   functions whose published signing certificate P_Keys.signing_key_agrees_with_reported_and_published is about *)
+From V Require Import Time GenPreludeMeta GenMeta P_GenMeta.
+Theorem C13_source_Metadata_is_the_model : forall (c : Metadata.md_config) (now : instant) (nil_of_empty : bool) (h : Z),
+  G_Metadata c now nil_of_empty = PVal (res_some (Metadata.metadata c now)) /\
+  G_MetadataWithSLO c now h = PVal (res_some (Metadata.metadata_with_slo c now h)).
+Proof. intros c now u h. exact (conj (G_Metadata_is_model c now u) (G_MetadataWithSLO_is_model c now h)). Qed.
+Print Assumptions C13_source_Metadata_is_the_model.
